@@ -30,6 +30,56 @@ def one_case(ctx, job, variant, lines, k, via_json):
     return txt, finding, {"plays": rec.plays, "conflicts": rec.conflicts}
 
 
+def sweep_plan(job, variant, chunk):
+    lines = []
+    for s in chunk:
+        lines += ['CAST "%s"' % s, "ELAPSE 1040"]
+    lines += ["ELAPSE 2500"]
+    for s in chunk:
+        lines += ['USE "%s"' % s, 'RESOLVE "%s"' % s]
+    lines += ["ELAPSE 700", "ELAPSE 20000"]
+    return lines
+
+
+def sweep(ctx, budget):
+    """restore(save s) = s for every entity class of every shipped skill: each skill is cast and left running,
+    the engine is replaced by a freshly reloaded one after EVERY command (JSON and in-memory alternately) and the
+    logs must equal the uninterrupted run's."""
+    findings, runs = [], 0
+    for job in simenv.JOBS:
+        for variant in ([0, 1, 2] if ctx.thorough else [1]):
+            names = list(simenv.skill_names(job, variant))
+            for i in range(0, len(names), 5):
+                if not budget.ok():
+                    return findings, runs
+                lines = sweep_plan(job, variant, names[i:i + 5])
+                cmds = simenv.parse_commands(lines)
+                try:
+                    e = simenv.make_engine(job, variant)
+                    for c in cmds:
+                        e.exec(c)
+                    full = ec.norm_logs(list(e.operation_logs()))
+                    r = simenv.make_engine(job, variant)
+                    for k, c in enumerate(cmds):
+                        r.exec(c)
+                        logs = list(r.operation_logs())
+                        if k % 2:
+                            logs = h_engine.json_roundtrip_logs(logs)
+                        r = simenv.make_engine(job, variant)
+                        r.reload(logs)
+                    res = ec.norm_logs(list(r.operation_logs()))
+                except Exception as ex:
+                    findings.append({"job": job, "variant": variant, "plan": lines, "what": "exception %r" % ex})
+                    continue
+                runs += 1
+                if full != res:
+                    d = ec.first_log_diff(full, res)
+                    findings.append({"job": job, "variant": variant, "plan": lines, "cut": "reload after every command",
+                                     "first_differing_log": d[0], "differing_fields": d[1],
+                                     "command_at_difference": lines[d[0] - 1] if 0 < d[0] <= len(lines) else None})
+    return findings, runs
+
+
 def run(ctx: Ctx) -> int:
     ec.build_and_check_props(ctx, ["theories/Props/C01.v"])
     n_plans = 24 if ctx.thorough else 8
@@ -66,6 +116,8 @@ def run(ctx: Ctx) -> int:
             distinct.add((job, variant, tuple(lines), k, via_json))
             if len(samples) < 2:
                 samples.append({"job": job, "variant": variant, "plan": lines, "cut": k, "via_json": via_json})
+    sweep_findings, sweep_runs = sweep(ctx, ec.Budget(1500 if ctx.thorough else 150))
+    findings += sweep_findings
     res = ec.run_engine_shards(ctx, shards, h_engine.parse_scenario_result)
     diffs = []
     for name, r in sorted(res.items()):
@@ -81,7 +133,8 @@ def run(ctx: Ctx) -> int:
                 "through JSON alternately; distinct = distinct (job, env, plan, cut, transport)",
         "correspondence": {"scenarios": len(res), "differences": len(diffs),
                            "plays_recorded": sum(i["plays"] for i in infos.values())},
-        "impl_search": {"resume_experiments": cases, "counterexamples": len(findings)},
+        "impl_search": {"resume_experiments": cases, "counterexamples": len(findings),
+                        "all_skill_sweep_plans_reloaded_after_every_command": sweep_runs},
     })
     for d in diffs:
         ctx.broken.append("engine model and implementation disagree: %s" % json.dumps(d, ensure_ascii=False)[:300])
